@@ -14,7 +14,7 @@ _mod = importlib.util.module_from_spec(_spec)
 _spec.loader.exec_module(_mod)
 _program_src = _mod.program_src
 IMPORTS = "From JV Require Import Lib.Base Lib.C12Syntax Model.C12Cli Spec.C12CliSpec Corr.C12Judge."
-RULE = ("seeded random programs: a function, a class with 0-3 methods, a list of 2-4 functions/classes, or a nested "
+RULE = ("seeded random programs: a function, a class with 0-3 methods (instance, static or class methods), a list of 2-4 functions/classes, or a nested "
         "dict (depth <=3, optional _help entries) of them; signatures of 0-6 parameters over int/str/bool/List[int]/"
         "Optional[int]/Optional[str]/Optional[List[int]]/the dataclass Point/Optional[Point] (values given whole: one JSON argv "
         "value, --k.x/--k.y, or a config section), with/without default (incl. `= None` on a non-Optional type), positional-or-keyword "
@@ -48,6 +48,8 @@ ASSUMPTIONS = [
     "the only dataclass is Point(x: int = 0, y: int = 0); a dataclass value is always given whole (both fields: as one JSON "
     "argv value, as --k.x/--k.y side by side, or as a config section), because partial assignments merge field-wise; a "
     "wrong-typed scalar for a dataclass group is generated on argv only (inside a --config it is validated lazily, C02)",
+    "instance, static and class methods are the same subcommand for the model (it starts from the subcommand's signature); "
+    "which receiver the callee gets is observed by the generated callee itself",
     "the subcommand is always chosen on the command line; a level whose subcommand is named by the config (`subcommand` key or "
     "inferred from the sections) and --config sections for siblings of the chosen subcommand are property C17's subject "
     "(selection and pruning of sibling sections at every nesting level) and are not generated here",
@@ -143,7 +145,9 @@ def gen_cls(rng, names, mnames=None):
         pool = list(dict.fromkeys(pool))
         s = gen_sig(rng, True, maxn=4, pool=pool)
         meths.append([m, s])
-    return {"k": "cls", "name": names.pop(), "init": init, "meths": meths}
+    # a public method may also be a @staticmethod or a @classmethod (same signature on the command line)
+    mkinds = {m: rng.choice(["static", "class"]) for m, _ in meths if rng.random() < 0.4}
+    return {"k": "cls", "name": names.pop(), "init": init, "meths": meths, "mkinds": mkinds}
 
 
 def gen_leaf(rng, fn_names, cls_names):
@@ -477,6 +481,13 @@ def fixed_cases():
     out.append({"as_pos": True, "components": {"form": "dict", "kids": [["grp", {"k": "grp", "kids": [["Task", nc]]}], ["go", h]]},
                 "toks": [["pos", "grp"], ["pos", "Task"], ["cfg", [["apply", {"sec": [["alpha", {"leaf": 3}], ["beta", {"leaf": 4}]]}]]], ["pos", "apply"]], "cfg_via": "file"})
     out.append({"as_pos": True, "components": {"form": "list", "cs": [nn, h]}, "toks": [["pos", "Unit"], ["cfg", []], ["pos", "reset"]]})
+    # static and class methods as subcommands
+    sm = {"k": "cls", "name": "Pipe", "init": [I("alpha", 1)], "mkinds": {"apply": "static", "show": "class"},
+          "meths": [["apply", [I("beta"), I("gamma", "q", "str")]], ["show", [I("beta"), I("delta", False, "bool", "ko")]], ["walk", [I("beta")]]]}
+    out.append({"as_pos": True, "components": {"form": "one", "c": sm}, "toks": [["opt", "alpha", 2], ["pos", "apply"], ["pos", 5], ["opt", "gamma", "foo"]]})
+    out.append({"as_pos": True, "components": {"form": "one", "c": sm}, "toks": [["pos", "show"], ["pos", 5], ["opt", "delta", True]]})
+    out.append({"as_pos": True, "components": {"form": "list", "cs": [sm, h]}, "toks": [["cfg", [["Pipe", {"sec": [["show", {"sec": [["beta", {"leaf": 3}]]}]]}]]], ["pos", "Pipe"], ["pos", "show"]]})
+    out.append({"as_pos": True, "components": {"form": "dict", "kids": [["grp", {"k": "grp", "kids": [["Pipe", sm]]}]]}, "toks": [["pos", "grp"], ["pos", "Pipe"], ["pos", "walk"], ["pos", 1]]})
     for o in out:
         o.setdefault("cfg_via", "string")
     return out
